@@ -1290,6 +1290,9 @@ func (x *cluster) trackNodeJoinEvent(ev events.NodeJoinEvent) {
 	if x.node.PeersAddress() == ev.NodeJoin {
 		return
 	}
+	// a node that (re)joins may leave again: re-open NodeLeft for its address,
+	// mirroring trackNodeLeftEvent, which re-opens NodeJoined
+	x.nodeLeftEventsFilter.Remove(ev.NodeJoin)
 	if x.nodeJoinedEventsFilter.Contains(ev.NodeJoin) {
 		return
 	}
@@ -1496,6 +1499,7 @@ func (x *cluster) emitNodeLeftLocked(node string, timestamp int64) {
 }
 
 func (x *cluster) emitNodeJoinedLocked(node string, timestamp int64) {
+	x.nodeLeftEventsFilter.Remove(node)
 	if x.nodeJoinedEventsFilter.Contains(node) {
 		return
 	}
